@@ -147,8 +147,8 @@ def tie_scalar(ctx, ncases=None):
     for i in bad:
         if i >= nscalar:
             c, ij, r = mkept[i - nscalar]
-            disagreements.append(dict(what="entry %s of solve_sylvester_2nd_quant differs from the model's solve_entry: %s" % (list(ij), matrix_str(c)),
-                                      input=dict(kind="matrix", case=c), impl=r["obs"][ij[0]][ij[1]], model="check_entry = false"))
+            disagreements.append(dict(what="call %d, entry %s of solve_sylvester_2nd_quant differs from the model's solve_entry: %s" % (ij[0], list(ij[1:]), matrix_str(c)),
+                                      input=dict(kind="matrix", case=c), impl=r["obs"][ij[0]][ij[1]][ij[2]], model="check_entry = false"))
             continue
         c, r = kept[i]
         disagreements.append(dict(what="model solve_scalar differs from the implementation: " + case_str(c), input=c, impl=r["obs"], model="check_scalar = false"))
@@ -162,7 +162,8 @@ def tie_scalar(ctx, ncases=None):
         samples=[case_str(c) for c, _ in kept[:4]],
         distribution=dict(diagonal=sum(1 for c, _ in kept if c["diagonal"]), offdiagonal=sum(1 for c, _ in kept if not c["diagonal"]),
                           terms_in_solution=sum(len(r["obs"]) for _, r in kept), matrix_entries=len(mkept),
-                          matrix_cases_diagonal_block=len({core.canon(c) for c, _, _ in mkept if c["index"][0] == c["index"][1]}),
+                          matrix_cases_diagonal_block=len({core.canon(c) for c, _, _ in mkept if any(cl["index"][0] == cl["index"][1] for cl in case_calls(c))}),
+                          solver_sequences=len({core.canon(c) for c, _, _ in mkept if "calls" in c}),
                           matrix_cases_identical_levels=len(mdistinct)),
         disagreements=disagreements,
     )
@@ -256,7 +257,7 @@ def oracle_scalar(ctx, ncases=None):
         mres = pool.map(_matrix_oracle_worker, mcases, chunksize=1)
     failures += [f for r in mres for f in r]
     return dict(
-        evaluations=len(cases) + sum(len(c["Y"]) * len(c["Y"][0]) for c in mcases),
+        evaluations=len(cases) + sum(len(cl["Y"]) * len(cl["Y"][0]) for c in mcases for cl in case_calls(c)),
         nontrivial=len({core.canon(c) for c in cases}) + len({core.canon(c) for c in mcases if matrix_nontrivial(c)}),
         rule="distinct generated (modes, Y, H_ii, H_jj, diagonal) plus distinct matrix-valued cases with two identical levels in a "
         "diagonal block; residual checked exactly, entry by entry, on the vacuum and >= 5 basis states",
@@ -316,6 +317,10 @@ def gen_matrix_case(rng, force=None):
         same = True
     bi = rng.randrange(nblocks)
     bj = bi if same else (bi + 1) % nblocks
+    return dict(modes=modes, eigs=eigs, index=[bi, bj], Y=rand_Y(rng, modes, eigs, bi, bj), grid=nc.rand_grid(rng, modes, 4))
+
+
+def rand_Y(rng, modes, eigs, bi, bj):
     A, B = eigs[bi], eigs[bj]
     Y = [[None] * len(B) for _ in A]
     for i in range(len(A)):
@@ -329,7 +334,32 @@ def gen_matrix_case(rng, force=None):
                     Y[j][i] = ["adj", Y[i][j]]  # the right-hand side of a diagonal block is a Hermitian MATRIX
             else:
                 Y[i][j] = rand_entry(rng, modes, A[i] != B[j])
-    return dict(modes=modes, eigs=eigs, index=[bi, bj], Y=Y, grid=nc.rand_grid(rng, modes, 4))
+    return Y
+
+
+def gen_sequence_case(rng):
+    """ONE solver object of solve_sylvester_2nd_quant used for several block pairs in sequence (3 blocks with different
+    operator-valued levels; the pairs (0,1), (0,2), (1,2), (1,0), ... and diagonal blocks are requested in a random
+    order, some twice with a different right-hand side): the result of a call must not depend on the history."""
+    modes = nc.rand_modes(rng, 1, 2)
+    eigs = []
+    for _ in range(3):
+        eigs.append([rand_h(rng, modes) for _ in range(rng.choice([1, 1, 2]))])
+    pairs = [(a, b) for a in range(3) for b in range(3)]
+    rng.shuffle(pairs)
+    idx = pairs[: rng.randint(3, 5)]
+    if rng.random() < 0.5:
+        idx.append(rng.choice(idx))
+    calls = [dict(index=[a, b], Y=rand_Y(rng, modes, eigs, a, b)) for a, b in idx]
+    return dict(modes=modes, eigs=eigs, calls=calls, grid=nc.rand_grid(rng, modes, 4))
+
+
+def case_calls(case):
+    return case["calls"] if "calls" in case else [dict(index=case["index"], Y=case["Y"])]
+
+
+def call_view(case, call):
+    return dict(modes=case["modes"], eigs=case["eigs"], index=call["index"], Y=call["Y"], grid=case["grid"])
 
 
 MATRIX_WITNESSES = [
@@ -341,35 +371,52 @@ MATRIX_WITNESSES = [
 ]
 
 
+def _lvl(c):
+    return ["add", ["num", 0], ["const", c, "0"]]
+
+
+MATRIX_WITNESSES.append(  # three 1x1 blocks N + c_b: every block pair uses the in-block entry [0,0]
+    dict(modes=["B"], eigs=[[_lvl("0")], [_lvl("5/7")], [_lvl("17/11")]],
+         calls=[dict(index=[0, 1], Y=[[["add", ["op", 0, 0], ["mul", ["const", "1/3", "0"], ["op", 0, 1]]]]]),
+                dict(index=[0, 2], Y=[[["add", ["op", 0, 0], ["mul", ["const", "2", "0"], ["op", 0, 1]]]]]),
+                dict(index=[1, 2], Y=[[["sub", ["op", 0, 1], ["op", 0, 0]]]]),
+                dict(index=[1, 0], Y=[[["add", ["op", 0, 1], ["mul", ["const", "1/3", "0"], ["op", 0, 0]]]]])],
+         grid=[[0], [1], [2], [4]]))
+
+
 def matrix_str(c):
     m = c["modes"]
-    return "modes=%s index=%s eigs=%s Y=%s" % (
-        "".join(m), tuple(c["index"]), [[nc.tree_str(h, m) for h in blk] for blk in c["eigs"]],
-        [[nc.tree_str(e, m) for e in row] for row in c["Y"]])
+    return "modes=%s eigs=%s calls=%s" % (
+        "".join(m), [[nc.tree_str(h, m) for h in blk] for blk in c["eigs"]],
+        [(tuple(cl["index"]), [[nc.tree_str(e, m) for e in row] for row in cl["Y"]]) for cl in case_calls(c)])
 
 
 def run_impl_matrix(case):
-    """-> (X entries as NumberOrderedForms over ops, Y entries likewise, ops)"""
+    """-> ([(X entries as NumberOrderedForms over ops, Y entries likewise) per call], ops); ONE solver object"""
     ops = nc.make_ops(case["modes"])
     eigs = tuple(tuple(nc.to_sympy(h, ops) for h in blk) for blk in case["eigs"])
-    Ynof = [[nc.build_impl(e, ops) for e in row] for row in case["Y"]]
-    X = solve_sylvester_2nd_quant(eigs)(sympy.Matrix(Ynof), tuple(case["index"]))
-    out = []
-    for i in range(X.rows):
-        row = []
-        for j in range(X.cols):
-            x = X[i, j]
-            if not isinstance(x, nc.NumberOrderedForm):
-                x = nc.NumberOrderedForm.from_expr(sympy.sympify(x), operators=ops)
-            row.append(nc.expand_to(x, ops))
-        out.append(row)
-    return out, Ynof, ops
+    solver = solve_sylvester_2nd_quant(eigs)
+    res = []
+    for call in case_calls(case):
+        Ynof = [[nc.build_impl(e, ops) for e in row] for row in call["Y"]]
+        X = solver(sympy.Matrix(Ynof), tuple(call["index"]))
+        out = []
+        for i in range(X.rows):
+            row = []
+            for j in range(X.cols):
+                x = X[i, j]
+                if not isinstance(x, nc.NumberOrderedForm):
+                    x = nc.NumberOrderedForm.from_expr(sympy.sympify(x), operators=ops)
+                row.append(nc.expand_to(x, ops))
+            out.append(row)
+        res.append((out, Ynof))
+    return res, ops
 
 
 def _matrix_worker(case):
     try:
-        X, _, ops = run_impl_matrix(case)
-        return dict(ok=True, obs=[[[(list(k), v) for k, v in nc.observe(x, ops, case["grid"]).items()] for x in row] for row in X])
+        res, ops = run_impl_matrix(case)
+        return dict(ok=True, obs=[[[[(list(k), v) for k, v in nc.observe(x, ops, case["grid"]).items()] for x in row] for row in X] for X, _ in res])
     except Exception as e:  # noqa: BLE001
         return dict(ok=False, err="%s: %s" % (type(e).__name__, str(e)[:300]))
 
@@ -387,15 +434,19 @@ def coq_entry(case, i, j, obs):
 
 def matrix_terms(case, r):
     out = []
-    for i, row in enumerate(r["obs"]):
-        for j, ob in enumerate(row):
-            obs = {tuple(k): [None if v is None else tuple(v) for v in vals] for k, vals in ob}
-            out.append(((i, j), coq_entry(case, i, j, obs)))
+    for c, (call, cobs) in enumerate(zip(case_calls(case), r["obs"])):
+        view = call_view(case, call)
+        for i, row in enumerate(cobs):
+            for j, ob in enumerate(row):
+                obs = {tuple(k): [None if v is None else tuple(v) for v in vals] for k, vals in ob}
+                out.append(((c, i, j), coq_entry(view, i, j, obs)))
     return out
 
 
 def matrix_nontrivial(case):
     """a diagonal block with two identical levels and a non-Hermitian element between them"""
+    if "calls" in case:  # one solver, several block pairs
+        return len({tuple(c["index"]) for c in case["calls"]}) >= 2
     bi, bj = case["index"]
     if bi != bj:
         return False
@@ -422,13 +473,14 @@ def matrix_residual_failures(case):
 
     from oracles import o_nof_matrix as om
 
-    X, Ynof, ops = run_impl_matrix(case)
+    res, ops = run_impl_matrix(case)
     modes = case["modes"]
-    bi, bj = case["index"]
     rng = _r.Random(core.canon(case))
     states = om.rand_states(rng, modes, 5)
     fails = []
-    for i, row in enumerate(X):
+    for cidx, (call, (X, Ynof)) in enumerate(zip(case_calls(case), res)):
+      bi, bj = call["index"]
+      for i, row in enumerate(X):
         for j, x in enumerate(row):
             y = nc.expand_to(Ynof[i][j], ops) if isinstance(Ynof[i][j], nc.NumberOrderedForm) else nc.NumberOrderedForm.from_expr(Ynof[i][j], operators=ops)
             Hi = nc.NumberOrderedForm.from_expr(nc.to_sympy(case["eigs"][bi][i], ops), operators=ops)
@@ -445,13 +497,13 @@ def matrix_residual_failures(case):
                 hx, xh = _act(om, aHi, sp, xv), _act(om, aX, sp, hv)
                 if hx is None or xh is None:
                     continue
-                res = om.v_clean(om.v_sum(om.v_sum(hx, xh, -1), yv, -1))
+                res_v = om.v_clean(om.v_sum(om.v_sum(hx, xh, -1), yv, -1))
                 if sp.edge_hit:
                     raise RuntimeError("truncation edge reached")
-                if res:
+                if res_v:
                     fails.append(dict(
-                        what="solve_sylvester_2nd_quant: residual H_A[%d] X - X H_B[%d] - Y != 0 for entry [%d,%d] on state %s: %s ; %s"
-                        % (i, j, i, j, st, om.v_str(res), matrix_str(case)),
+                        what="solve_sylvester_2nd_quant: call %d (block pair %s): residual H_A[%d] X - X H_B[%d] - Y != 0 for entry [%d,%d] on state %s: %s ; %s"
+                        % (cidx, tuple(call["index"]), i, j, i, j, st, om.v_str(res_v), matrix_str(case)),
                         input=dict(kind="matrix", case=case)))
                     break
             if fails:
@@ -468,7 +520,7 @@ def _matrix_oracle_worker(case):
 
 
 def matrix_cases(rng, n):
-    return [dict(w) for w in MATRIX_WITNESSES] + [gen_matrix_case(rng) for _ in range(n)]
+    return [dict(w) for w in MATRIX_WITNESSES] + [gen_sequence_case(rng) if k % 3 == 2 else gen_matrix_case(rng) for k in range(n)]
 
 
 def replay_matrix(case):
@@ -480,7 +532,7 @@ def replay_matrix(case):
     ts = matrix_terms(case, r)
     bad = core.coq_eval_cases("k_scalar_replay", COQ_HEADER, [t for _, t in ts])
     for b in bad:
-        print("entry %s differs from the model's solve_entry" % (list(ts[b][0]),))
+        print("call %d entry %s differs from the model's solve_entry" % (ts[b][0][0], list(ts[b][0][1:])))
     fails = matrix_residual_failures(case)
     for f in fails:
         print(f["what"])
